@@ -298,7 +298,15 @@ DecArrayIn(d, decl, f, st, region, fuel) ==
                     \cup (IF ext % ew # 0 THEN {"ArraySize"} ELSE {})
           IN IF fs # {} THEN Res(fs, TRUE, NoneV, region)
              ELSE LET r == DecElems(d, f, Take(region, ext), ext \div ew, Acc0, fuel)
-                  IN IF r.halt THEN r ELSE [r EXCEPT !.rest = Drop(region, ext)]
+                      (* Assumed: the extent divides into ext / ew elements, so a decoder may as well read that   *)
+                      (* many elements from the open region.  An element whose own size field runs past the        *)
+                      (* extent is then met by another guard first (the element's exact-consumption check):      *)
+                      (* both classes name the fault.                                                             *)
+                      open == DecElems(d, f, region, ext \div ew, Acc0, fuel)
+                  IN IF r.halt
+                     THEN (IF "Length" \in r.faults /\ ext < L /\ open.faults # {}
+                           THEN [r EXCEPT !.faults = @ \cup open.faults] ELSE r)
+                     ELSE [r EXCEPT !.rest = Drop(region, ext)]
   ELSE IF hasEs THEN
      (* element size given by an element-size field *)
      IF hasCount THEN
